@@ -3,7 +3,7 @@ from py.harness.common import *
 import torch.nn as nn
 from opacus.grad_sample.linear import compute_linear_grad_sample
 from opacus.grad_sample.dp_rnn import compute_rnn_linear_grad_sample
-from opacus.grad_sample.embedding import compute_embedding_grad_sample
+from opacus.grad_sample.embedding import compute_embedding_grad_sample, compute_embeddingbag_gradsampler
 from opacus.layers.dp_rnn import RNNLinear
 
 
@@ -38,6 +38,29 @@ def run_emb(c):
     return {'T': T, 'idx': [int(v) for v in idx.reshape(-1).tolist()], 'g': ints(bp.reshape(T, D)), 'gs': ints(r[layer.weight][0])}
 
 
+def run_bag(c):
+    """several bags in one call (offsets); one result per bag; mean mode is returned multiplied by the number of non-padding entries"""
+    g = torch.Generator().manual_seed(c['seed'])
+    V, D = c['V'], c['D']
+    layer = nn.EmbeddingBag(V, D, mode=c['mode'], padding_idx=c['pad']).double()
+    sizes = c['sizes']
+    idx = torch.randint(0, V, (sum(sizes),), generator=g)
+    if c['pad'] is not None and idx.numel():
+        idx[::2] = c['pad']
+    off = torch.tensor([sum(sizes[:i]) for i in range(len(sizes))], dtype=torch.long)
+    bp = torch.randint(-3, 4, (len(sizes), D), generator=g).double()
+    # the sampler allocates its result in the default dtype (float64 in these harnesses)
+    r = compute_embeddingbag_gradsampler(layer, [idx, off], bp)[layer.weight]
+    out = []
+    for i, n in enumerate(sizes):
+        b = idx[int(off[i]):int(off[i]) + n]
+        k = int((b != c['pad']).sum()) if c['pad'] is not None else n
+        mult = k if (c['mode'] == 'mean' and k > 0) else 1
+        out.append({'T': n, 'idx': [int(v) for v in b.tolist()], 'gb': [int(round(v)) for v in bp[i].tolist()], 'gs': ints(r[i].double() * mult),
+                    'resid': float(((r[i].double() * mult) - (r[i].double() * mult).round()).abs().max())})
+    return out
+
+
 def run_conv(c):
     import torch.nn.functional as F
     from opacus.grad_sample.conv import compute_conv_grad_sample
@@ -62,4 +85,5 @@ def run_conv(c):
 
 if __name__ == '__main__':
     p = read_payload()
-    emit({'lin': [run_lin(c) for c in p.get('lin', [])], 'emb': [run_emb(c) for c in p.get('emb', [])], 'conv': [run_conv(c) for c in p.get('conv', [])]})
+    emit({'lin': [run_lin(c) for c in p.get('lin', [])], 'emb': [run_emb(c) for c in p.get('emb', [])], 'conv': [run_conv(c) for c in p.get('conv', [])],
+          'bag': [run_bag(c) for c in p.get('bag', [])]})
